@@ -12,7 +12,7 @@ ERR    every hard-error exit that is reachable while the declared message is not
 from engine.lin import Lin
 from engine.values import Enum, Int, Slice, Struct, Top
 from rules import lib_parse
-from rules.C04 import spec_header_len
+from rules.C04 import spec_header_len, spec_header_len_min
 
 FN = lib_parse.INTERN
 CONSUME = "parse::dlt_consume_msg"
@@ -58,8 +58,7 @@ def min_end(eng, st, wsh, fixed_A=None):
         return A.add(Lin.sym(Lname)), "A + L"
     if A is not None:
         bits = lib_parse.htyp_bits(st, hsym) if hsym else {}
-        H = spec_header_len(bits)
-        return A.add(Lin.const(H if H is not None else 4)), "A + header length"
+        return A.add(Lin.const(spec_header_len_min(bits))), "A + header length"
     if wsh:
         for k in st.key:
             if k == ("find", "some"):
@@ -125,7 +124,7 @@ def check_exits(ctx, eng, outs, fn, b, consume=False):
                     if not hi_ok and Lname is not None and hsym:
                         # well-formedness hypothesis of the property (a prefix of a *valid* message): the declared length
                         # covers at least the header the header-type flags announce
-                        H = spec_header_len(lib_parse.htyp_bits(st, hsym))
+                        H = spec_header_len_min(lib_parse.htyp_bits(st, hsym))  # flags not tested yet count as absent
                         if H is not None:
                             s2 = st.fork()
                             try:
